@@ -38,41 +38,6 @@ func (p *Program) impliesSingular(fn *ssa.Function) bool {
 	}
 	par := fn.Params[0]
 	onParam := func(c *ssa.Call) bool { return c.Common().Value == ssa.Value(par) }
-	type facts struct{ list, mp bool }
-	fromGuards := func(b *ssa.BasicBlock) facts {
-		var f facts
-		for _, g := range guardsOf(b) {
-			if c, ok := isInvokeNamed(g.Cond, "IsList", "IsMap"); ok && onParam(c) && !g.True {
-				if c.Common().Method.Name() == "IsList" {
-					f.list = true
-				} else {
-					f.mp = true
-				}
-			}
-			// Cardinality() != Repeated
-			if bo, ok := g.Cond.(*ssa.BinOp); ok {
-				if c, ok := isInvokeNamed(bo.X, "Cardinality"); ok && onParam(c) {
-					if k, ok := constInt(bo.Y); ok && k == 3 && ((bo.Op == token.NEQ && g.True) || (bo.Op == token.EQL && !g.True)) {
-						f.list, f.mp = true, true
-					}
-				}
-			}
-		}
-		return f
-	}
-	fromValue := func(v ssa.Value) facts {
-		var f facts
-		if u, ok := v.(*ssa.UnOp); ok && u.Op == token.NOT {
-			if c, ok := isInvokeNamed(u.X, "IsList", "IsMap"); ok && onParam(c) {
-				if c.Common().Method.Name() == "IsList" {
-					f.list = true
-				} else {
-					f.mp = true
-				}
-			}
-		}
-		return f
-	}
 	ok := true
 	nret := 0
 	eachInstr(fn, func(in ssa.Instruction) {
@@ -81,24 +46,111 @@ func (p *Program) impliesSingular(fn *ssa.Function) bool {
 			return
 		}
 		nret++
-		check := func(v ssa.Value, b *ssa.BasicBlock) {
-			if c, isC := v.(*ssa.Const); isC && c.Value != nil && c.Value.String() == "false" {
-				return
+		// what holds whenever this return yields true: the facts of the returned expression and the guards of the return
+		fs, impossible := p.factsWhen(rt.Results[0], true)
+		if impossible {
+			return
+		}
+		fs = append(fs, p.expandFacts(guardsOf(rt.Block()))...)
+		list, mp := false, false
+		for _, g := range fs {
+			if c, isInv := isInvokeNamed(g.Cond, "IsList", "IsMap"); isInv && onParam(c) && !g.True {
+				if c.Common().Method.Name() == "IsList" {
+					list = true
+				} else {
+					mp = true
+				}
 			}
-			fg, fv := fromGuards(b), fromValue(v)
-			if !(fg.list || fv.list) || !(fg.mp || fv.mp) {
-				ok = false
+			// Cardinality() != Repeated
+			if bo, isB := g.Cond.(*ssa.BinOp); isB {
+				if c, isInv := isInvokeNamed(bo.X, "Cardinality"); isInv && onParam(c) {
+					if k, isC := constInt(bo.Y); isC && k == 3 && ((bo.Op == token.NEQ && g.True) || (bo.Op == token.EQL && !g.True)) {
+						list, mp = true, true
+					}
+				}
 			}
 		}
-		if ph, isPhi := rt.Results[0].(*ssa.Phi); isPhi {
-			for i, e := range ph.Edges {
-				check(e, ph.Block().Preds[i])
-			}
-		} else {
-			check(rt.Results[0], rt.Block())
+		if !list || !mp {
+			ok = false
 		}
 	})
 	return ok && nret > 0
+}
+
+// elementOf: v is an element *(&S[i]) of a slice S that is `stored`, shares an origin with it, or is a load of field f.
+func (p *Program) elementOf(v, stored ssa.Value, f *types.Var) bool {
+	u, ok := v.(*ssa.UnOp)
+	if !ok {
+		return false
+	}
+	ia, ok := u.X.(*ssa.IndexAddr)
+	if !ok {
+		return false
+	}
+	for _, o := range p.origins(ia.X, originOpts{local: true}) {
+		if o == stored || (f != nil && loadsField(o, f)) {
+			return true
+		}
+		for _, so := range p.origins(stored, originOpts{local: true}) {
+			if so == o {
+				return true
+			}
+		}
+	}
+	return false
+}
+
+// storedValidatedOrNil: every origin of v is a call to a transparent helper
+// each of whose returns yields nil or a list whose element passed (on every
+// path to that return) a module predicate implying "singular message".
+func (p *Program) storedValidatedOrNil(v ssa.Value) bool {
+	os := p.origins(v, originOpts{local: true})
+	if len(os) == 0 {
+		return false
+	}
+	for _, o := range os {
+		c, ok := o.(*ssa.Call)
+		if !ok {
+			return false
+		}
+		callee := c.Call.StaticCallee()
+		if callee == nil || !p.isTransparent(callee) || callee.Signature.Results().Len() != 1 {
+			return false
+		}
+		nret := 0
+		good := true
+		eachInstr(callee, func(in ssa.Instruction) {
+			rt, isRet := in.(*ssa.Return)
+			if !isRet {
+				return
+			}
+			nret++
+			allNil := true
+			for _, ro := range p.origins(rt.Results[0], originOpts{local: true}) {
+				if !isNilConst(ro) {
+					allNil = false
+				}
+			}
+			if allNil {
+				return
+			}
+			validated := false
+			for _, g := range p.expandFacts(guardsOf(rt.Block())) {
+				if gc, isCall := g.Cond.(*ssa.Call); isCall && g.True {
+					if pred := staticCallee(gc); pred != nil && p.impliesSingular(pred) && len(gc.Call.Args) == 1 && p.elementOf(gc.Call.Args[0], rt.Results[0], nil) {
+						validated = true
+					}
+				}
+			}
+			if !validated {
+				good = false
+			}
+		})
+		if !good || nret == 0 {
+			return false
+		}
+	}
+	return true
 }
 
 // singularGuardFacts: at block b, is value fd known to be a singular (non-list, non-map) field?
@@ -117,18 +169,25 @@ func (p *Program) knownSingular(fd ssa.Value, b *ssa.BasicBlock) bool {
 		}
 		return false
 	}
-	for _, g := range guardsOf(b) {
-		if c, ok := isInvokeNamed(g.Cond, "IsList", "IsMap"); ok && same(c.Common().Value) && !g.True {
-			if c.Common().Method.Name() == "IsList" {
-				list = true
-			} else {
-				mp = true
+	// in every calling context (the test may sit at the call site of a transparent helper)
+	for _, ctx := range p.guardContexts(b) {
+		list, mp = false, false
+		for _, g := range ctx {
+			if c, ok := isInvokeNamed(g.Cond, "IsList", "IsMap"); ok && same(c.Common().Value) && !g.True {
+				if c.Common().Method.Name() == "IsList" {
+					list = true
+				} else {
+					mp = true
+				}
+			}
+			if c, ok := g.Cond.(*ssa.Call); ok && g.True {
+				if callee := staticCallee(c); callee != nil && p.impliesSingular(callee) && len(c.Call.Args) == 1 && same(c.Call.Args[0]) {
+					list, mp = true, true
+				}
 			}
 		}
-		if c, ok := g.Cond.(*ssa.Call); ok && g.True {
-			if callee := staticCallee(c); callee != nil && p.impliesSingular(callee) && len(c.Call.Args) == 1 && same(c.Call.Args[0]) {
-				list, mp = true, true
-			}
+		if !list || !mp {
+			return false
 		}
 	}
 	return list && mp
@@ -195,27 +254,12 @@ func ruleFieldPathSingular(r *Run) {
 				}
 				n++
 				stored := st.Val
-				derives := func(v ssa.Value) bool {
-					// element of the stored slice: *(&S[i]) with S = stored value or a load of the field
-					u, ok := v.(*ssa.UnOp)
-					if !ok {
-						return false
-					}
-					ia, ok := u.X.(*ssa.IndexAddr)
-					if !ok {
-						return false
-					}
-					for _, o := range p.origins(ia.X, originOpts{}) {
-						if o == stored || loadsField(o, f) {
-							return true
-						}
-						for _, so := range p.origins(stored, originOpts{}) {
-							if so == o {
-								return true
-							}
-						}
-					}
-					return false
+				derives := func(v ssa.Value) bool { return p.elementOf(v, stored, f) }
+				key := "(*path).addRule/P:" + fname + "-last-element-singular-message"
+				// the resolution and its validation may live in a helper that returns nil unless the last element is a singular message
+				if p.storedValidatedOrNil(stored) {
+					r.ok(key, in.Pos(), "the stored list comes from a helper that returns nil unless its last element passed the singular-message validation")
+					return
 				}
 				q := pathQuery{fn: ar, start: in, target: isRegistration,
 					edgeOK: func(b *ssa.BasicBlock, succ int) bool {
@@ -230,7 +274,6 @@ func ruleFieldPathSingular(r *Run) {
 						}
 						return true
 					}}
-				key := "(*path).addRule/P:" + fname + "-last-element-singular-message"
 				if w, _ := q.find(); w != nil {
 					r.bad(key, in.Pos(), "method.%s is stored and the method registered without checking that the selected field is a singular message field: a rule naming a scalar, repeated or map field registers fine and every request then panics in Mutable(fd).Message() (%s)", fname, p.describePath(w))
 				} else {
@@ -248,7 +291,7 @@ func ruleFieldPathSingular(r *Run) {
 		r.missing("method (params).set")
 	} else {
 		n := 0
-		eachInstr(ps, func(in ssa.Instruction) {
+		p.eachInstrRegion(ps, func(_ *ssa.Function, in ssa.Instruction) {
 			c, ok := in.(ssa.CallInstruction)
 			if !ok || !c.Common().IsInvoke() || c.Common().Method.Pkg() == nil || c.Common().Method.Pkg().Path() != protoreflect {
 				return
@@ -262,19 +305,16 @@ func ruleFieldPathSingular(r *Run) {
 			}
 		})
 		// List() only under IsList true
-		eachInstr(ps, func(in ssa.Instruction) {
+		p.eachInstrRegion(ps, func(_ *ssa.Function, in ssa.Instruction) {
 			c, ok := in.(*ssa.Call)
 			if !ok || !strings.HasSuffix(calleeName(c), "protoreflect.Value).List") {
 				return
 			}
 			n++
-			isList := false
-			for _, g := range guardsOf(c.Block()) {
-				if gc, ok := isInvokeNamed(g.Cond, "IsList"); ok && g.True {
-					_ = gc
-					isList = true
-				}
-			}
+			isList := p.guardedInEveryContext(c.Block(), func(g guardFact) bool {
+				_, ok := isInvokeNamed(g.Cond, "IsList")
+				return ok && g.True
+			})
 			r.check(isList, "(params).set/P4:List-on-list", in.Pos(), "List() is used only where IsList() is true", "Value.List() is called where the field is not known to be a list (panics for other kinds)")
 		})
 		if n == 0 {
@@ -355,12 +395,16 @@ func ruleFieldPathSingular(r *Run) {
 // ---------------------------------------------------------------------------
 
 // descRole: "In" / "Out" if v derives from MethodDescriptor.Input()/Output() (through Fields()), else "".
-func (p *Program) descRole(v ssa.Value) string {
+func (p *Program) descRole(v ssa.Value) string { return p.descRoleCtx(v, nil) }
+
+// descRoleCtx: as descRole, for a value seen in the calling context ctx.
+func (p *Program) descRoleCtx(v ssa.Value, ctx *originCtx) string {
 	role := ""
 	seen := map[ssa.Value]bool{}
-	var walk func(v ssa.Value)
-	walk = func(v ssa.Value) {
-		for _, o := range p.origins(v, originOpts{}) {
+	var walk func(v ssa.Value, ctx *originCtx)
+	walk = func(v ssa.Value, ctx *originCtx) {
+		for _, ro := range p.originsCtx(v, ctx, originOpts{}) {
+			o := ro.v
 			if seen[o] {
 				continue
 			}
@@ -375,11 +419,11 @@ func (p *Program) descRole(v ssa.Value) string {
 			case "Output":
 				role += "Out"
 			case "Fields", "Message":
-				walk(c.Common().Value)
+				walk(c.Common().Value, ro.ctx)
 			}
 		}
 	}
-	walk(v)
+	walk(v, ctx)
 	switch role {
 	case "In", "Out":
 		return role
@@ -411,25 +455,25 @@ func ruleDescRole(r *Run) {
 				if !ok || fieldOfAddr(fa) != f {
 					return
 				}
-				for _, o := range p.origins(st.Val, originOpts{}) {
-					c, ok := o.(*ssa.Call)
+				for _, ro := range p.originsCtx(st.Val, nil, originOpts{}) {
+					c, ok := ro.v.(*ssa.Call)
 					if !ok || calleeName(c) != nFieldPath {
 						continue
 					}
 					n++
-					role := p.descRole(c.Call.Args[0])
+					role := p.descRoleCtx(c.Call.Args[0], ro.ctx)
 					key := "(*path).addRule/method." + fname + "/descriptor"
 					r.check(role == w.role, key, c.Pos(), "resolved against the method's "+w.role+"put message",
 						fmt.Sprintf("method.%s is resolved against the method's %q descriptor, it must be the %sput message", fname, role, w.role))
 					// selector string
 					sel := ""
-					for _, no := range p.origins(c.Call.Args[1], originOpts{}) {
-						sc, ok := no.(*ssa.Call)
+					for _, no := range p.originsCtx(c.Call.Args[1], ro.ctx, originOpts{}) {
+						sc, ok := no.v.(*ssa.Call)
 						if !ok || calleeName(sc) != "strings.Split" {
 							continue
 						}
-						for _, so := range p.origins(sc.Call.Args[0], originOpts{}) {
-							if lf := loadedField(so); lf != nil {
+						for _, so := range p.originsCtx(sc.Call.Args[0], no.ctx, originOpts{}) {
+							if lf := loadedField(so.v); lf != nil {
 								sel = lf.Name()
 							}
 						}
